@@ -112,6 +112,7 @@ def rule_b(repo, chk):
         chk.ob('C10.b', ok, lp, 'a namespace package is reported with the plain list of its portions (not importlib\'s live, self-recomputing _NamespacePath)',
                norm(ns[0].args[1]) if ns else '')
         ptest = [t for t in if_test_texts(lp, nested=True) if 'is_global_search' in t]
+        ptest += [norm(x.test) for x in ast.walk(lp) if isinstance(x, ast.IfExp) and 'is_global_search' in norm(x.test)]     # `p = None if <test> else path`
         ok = ptest == ['is_global_search and finder != importlib.machinery.PathFinder']
         chk.ob('C10.b', ok, lp, 'non-PathFinder finders are asked without a path on a global search')
     rets = [r for r in stmts_in(f, ast.Return) if call_name(r.value) == '_find_module_py33']
@@ -236,7 +237,7 @@ def _rest_is_tested(repo, f, c):
 
 
 PREFIX_CHECKED = {
-    ('jedi.inference.sys_path', 'transform_path_to_dotted.iter_potential_solutions', 'str(module_path).startswith(p)'):
+    ('jedi.inference.sys_path', 'transform_path_to_dotted.iter_potential_solutions', '*'):
         ('a search path entry names a module only if a separator follows it in the module path (or it ends with one)', _rest_is_tested),
 }
 
